@@ -351,9 +351,11 @@ def make_mdp(view, ctx=None, dist=None, alias='fresh', explicit_lists=False, sto
         cb('initial_state_dist')
         return build([(sk[s], p) for s, p in view.init.items()])
 
+    btype = (bool, _np.bool_, bool, int)[(view.n + 5 * view.spec['nA']) % 4]      # models that keep their flags in a numpy mask hand back numpy.bool_ (or 1)
+
     def is_absorbing(s):
         cb('is_absorbing', sid[s])
-        return sid[s] in view.absorbing
+        return btype(sid[s] in view.absorbing)
 
     # the three ways QuickTabularMDP accepts the initial states (user models use all of them); which one is a pure
     # function of the spec: a call-back, a distribution object, or - for a single initial state - initial_state=<key>
@@ -617,6 +619,17 @@ def make_graph_mdp(view, rep):
     if rep == 'dict':
         return QuickTabularMDP(next_state_dist=lambda s, a: DictDistribution({nxt(s, a): 1.0}),
                                initial_state_dist=DictDistribution({src: 1.0}), **kw)
+    if rep == 'parallel':
+        # a model written with parallel lists: per state the list of actions (the model's OWN list object, handed out on every
+        # call) and, index by index, the list of targets and costs; the transition looks the action up in that list
+        acts = {s_: [ak[a] for a in view.A.get(s_, [])] for s_ in range(view.n)}
+        tgts = {s_: [sk[E[s_, a][0]] for a in view.A.get(s_, [])] for s_ in range(view.n)}
+        csts = {s_: [E[s_, a][1] for a in view.A.get(s_, [])] for s_ in range(view.n)}
+        bare = view.spec.get('bare_goals')
+        return QuickTabularMDP(next_state=lambda s, a: tgts[sid[s]][acts[sid[s]].index(a)], initial_state=src,
+                               reward=lambda s, a, ns: -num(csts[sid[s]][acts[sid[s]].index(a)]),
+                               actions=lambda s: [] if (bare and sid[s] in view.goals) else acts[sid[s]],
+                               is_absorbing=kw['is_absorbing'])
     if rep == 'dict_ulp':
         # a single outcome whose probability was summed from parts: 1 only up to rounding (0.7 + 0.2 + 0.1)
         one = 0.7 + 0.2 + 0.1
